@@ -480,12 +480,15 @@ class C18(Suite):
                         last[r] = ((ts - case["hist"]) * fd, v)
                 if ld["values"] != last:
                     return "COMPLETE with register map %r, last logged values are %r" % (ld["values"], last)
-        # completion: two unrestricted loads at or after the last record
-        tail = [i for i, l in enumerate(case["loads"]) if l[1] is None and l[2] is None
-                and (not expect or l[0] >= max(ts for ts, _ in expect))
-                and l[0] >= max([ln[1] for f in order for ln in records(f)])]
-        if len(tail) >= 2 and loads[tail[1]]["st"] != "C":
-            return "replay is not COMPLETE after load %d although the clock has passed the last record" % tail[1]
+        # completion (theorem replay_completes): two consecutive unrestricted loads at or after the last record
+        last_ts = max([ln[1] for f in order[start:] for ln in records(f)])
+        free = lambda l: l[1] is None and l[2] is None
+        for i in range(len(case["loads"]) - 1):
+            if free(case["loads"][i]) and free(case["loads"][i + 1]) and case["loads"][i][0] >= last_ts:
+                if loads[i + 1]["st"] != "C":
+                    return ("replay is not COMPLETE after load %d although the clock had passed the last record "
+                            "at load %d" % (i + 1, i))
+                break
         return None
 
     def oracle_natural(self, case, out):
